@@ -60,6 +60,7 @@ void tool_build(const Plan &p, Case &c) {
   // bonded: the topology carries a <bonded> section (bonds, and angles for chains of >= 3 beads), which also
   // creates exclusions for the non-bonded search; without mapping the bonded distributions are evaluated too
   bool bonded = (p.variant & V_BONDED) != 0;
+  const bool need_xml = map || bonded;  // mapping files and <bonded> sections refer to the XML topology's names
   std::string top = gen_topology_xml(p, two, box);
   if (bonded) {
     auto bname = [&](int b) { return std::string("MOL:") + ((two && (b % 2)) ? "B" : "A") + std::to_string(b + 1); };
@@ -75,7 +76,8 @@ void tool_build(const Plan &p, Case &c) {
     b << " </bonded>\n";
     top.insert(top.rfind("</topology>"), b.str());
   }
-  c.files["topol.xml"] = top;
+  std::string topfile = "topol.xml";
+  if (need_xml || p.top_fmt == 0) c.files["topol.xml"] = top; else topfile = add_topology(p, c, two, box);
   std::string trj = trj_file(p);
   c.files[trj] = gen_trajectory(p, box, p.nmol * p.chain);
   std::ostringstream opt;
@@ -110,7 +112,7 @@ void tool_build(const Plan &p, Case &c) {
     c.cwd_files["A-A.dist.tgt"] = target(max, step);
     if (two) c.cwd_files["A-B.dist.tgt"] = target(0.5, 0.1);
   }
-  c.args = {"--top", "{IN}/topol.xml", "--trj", "{IN}/" + trj, "--options", "{IN}/settings.xml"};
+  c.args = {"--top", "{IN}/" + topfile, "--trj", "{IN}/" + trj, "--options", "{IN}/settings.xml"};
   if (map) {
     bool map2 = (p.variant & V_MAP2) && p.chain >= 2;
     std::ostringstream m;
